@@ -205,13 +205,51 @@ def run(run: Run):
         s["log_msm"] = True
         for i, v in enumerate(s["verifies"]):
             v["log"] = (i % (4 if run.tier == "quick" else 7) == 0)      # coqc memory grows with the logged volume (19 GB were measured at 10 specs x every 4th)
-    sessions.run_sessions(run, mspecs, None, relevant=1, name="c16m")
+    sessions.run_sessions(run, mspecs, None, relevant=1 | 1024, name="c16m")
+    # OUTSIDE the property's scope, to validate the PANIC branch of the three-valued model (Model/CheckedTop.v) against the code: statements
+    # written through their public fields after construction (promise count != commitment count).  The property does not speak about them;
+    # what is compared is that the model predicts the implementation's outcome class value / error / panic (code 1024), nothing else.
+    rng = run.rng
+    fspecs = []
+    for fi, (b, m, T) in enumerate([(2, 1, 1), (1, 2, 2), (4, 2, 1), (2, 4, 3)] if run.tier == "quick" else [(2, 1, 1), (1, 2, 2), (4, 2, 1), (2, 4, 3), (8, 1, 2), (1, 4, 1), (16, 2, 6), (2, 2, 4)]):
+        mem = gen.mk_member(rng, b, m, cap=m, T=T)
+        other = gen.mk_member(rng, b, m, cap=m, T=T)
+        verifies, tags = [], []
+
+        def written(name, promises):
+            st = gen.stmt_of(mem)
+            st["raw_fields"] = {"promises": promises}
+            for md in ("VerifyOnly", "RecoverAndVerify", "RecoverOnly"):
+                verifies.append({"mode": md, "vmembers": [{"proof": 0, "stmt": st, "ctx": mem["ctx"]}]})
+                tags.append((name, "alone", md))
+            verifies.append({"mode": "VerifyOnly", "vmembers": [gen.vmember(other, 1), {"proof": 0, "stmt": st, "ctx": mem["ctx"]}]})
+            tags.append((name, "second of two", "VerifyOnly"))
+        written("as constructed", mem["promises"])
+        written("one surplus promise (None)", mem["promises"] + [None])
+        written("one surplus promise (Some)", mem["promises"] + ["0"])
+        written("three surplus promises", mem["promises"] + [None, "1", None])
+        if m >= 2:
+            written("one promise missing", mem["promises"][:-1])
+        written("no promises", [])
+        fspecs.append({"id": f"c16-fields-{fi}", "group": "fm", "members": [mem, other], "verifies": verifies, "_tags": tags, "_conf": [b, m, T],
+                       "_beyond_constructors": True, "_no_embed": True, "_no_modes": True, "with_gens": False})
+
+    def field_oracle(run, s, o):
+        b, m, T = s["_conf"]
+        for (name, where, md), vo in zip(s["_tags"], o["verifies"]):
+            cls = vo["result"].split(":")[0]
+            run.count(["c16fields", b, m, T, name, where, md, cls], {"outside_scope": "statement written through its public fields", "case": name, "where": where, "mode": md,
+                                                                     "bits": b, "m": m, "T": T, "implementation": cls})
+            run.bump("public-field statements: " + cls)
+            if name == "as constructed" and cls != "ok":
+                run.violation(f"control: the untouched statement is refused ({where}, {md}): {vo['result'][:80]}", {"kind": "session", "spec": sessions.strip(s)})
+    sessions.run_sessions(run, fspecs, field_oracle, relevant=1024, name="c16p")
     return run.finish(
         "proof",
         "hostile proofs (round counts 1..70 and hundreds/thousands, every extension tag and d1 length, identity / undecodable / unrelated points at each kind of position, boundary and "
         "non-canonical scalars) alone, at position >= 1 and in the middle of mixed batches, against matching and mismatching statements, ill-formed batch shapes (0-3 mismatched "
         "lengths, mixed bits / T / aggregation, aggregation factors of 512 (thorough: 256..1024) commitments per statement), in the three modes, in debug (overflow-checked) and release builds over Ristretto and the free-module group; arbitrary byte strings "
-        "through the decoder; any panic, abort, acceptance of a hostile proof or call above 20 s is a violation; the model predicts Ok/Err; distinct by "
+        "through the decoder; any panic, abort, acceptance of a hostile proof or call above 20 s is a violation; the model predicts Ok/Err and the three-valued model value / error / panic; outside the property's scope, statements written through their public fields (promise count != commitment count) tie the PANIC branch of the three-valued model to the back end's length assertions; distinct by "
         "(profile, group, bits, m, T, hostile kind, placement, mode, outcome)",
         ["time proportional to input size is checked as an absolute ceiling on inputs of a few KiB"],
         TRUSTED)
